@@ -24,7 +24,7 @@ AbsLe(a, b) == ZAbs(a) \preceq b
 -----------------------------------------------------------------------------
 (* C09  sin, cos *)
 SinCosDom(x) == AbsLe(x, TwoPhi)                             \* |x| <= 2*pi : raws -411774 .. 411774
-PerDom(x) == ZAbs(x) \prec P(46)
+PerDom(x) == ZAbs(x) \prec P(62)        \* "|x| below 2^46": the value, i.e. raw below 2^62 (the quantifier text: every raw x with |x| < 2^62)
 (* |out - f(x)| <= extra + 4 ulp + r^9/9!  where arg is the enclosure whose sine is the true value *)
 SinBoundOk(arg, out, extraUlp) ==
    LET S == SinIv(arg)
